@@ -113,7 +113,8 @@ Definition close (st : lstate) : option (list token) :=
   | LQIdentQ acc => match acc with EmptyString => None | _ => Some [TQIdent acc] end
   | LUIdentQ acc => match acc with EmptyString => None | _ => Some [TUIdent acc] end
   | LStrQ _ acc | LStrWs _ acc _ => Some [TStr acc]
-  | LInt acc | LIntDot acc | LFrac acc | LExp acc => Some (num_token acc)
+  | LInt acc | LFrac acc | LExp acc => Some (num_token acc)
+  | LIntDot acc => Some (num_token (snoc acc "."))
   | LDot => Some [TSelf "."]
   | LDollar => Some [TBad "$"]
   | LParam acc => Some [TParam acc]
@@ -158,7 +159,9 @@ Section Lex.
     else if is_digit c || (n =? 120) || (n =? 117) || (n =? 85) then None  (* octal, hex, unicode *)
     else Some c.
 
+  (* a NUL byte cannot occur in a query: the text is a C string and ends there *)
   Definition lstep (st : lstate) (c : ascii) : lstate * list token :=
+    if nb c =? 0 then (LErr, []) else
     match st with
     | LErr => (LErr, [])
     | LInit => start c
@@ -262,10 +265,10 @@ Section Lex.
     | String c r => let (st1, t1) := lstep st c in let (st2, t2) := lrun st1 r in (st2, t1 ++ t2)
     end.
 
-  Definition pg_lex (s : string) : option (list token) :=
-    let (st, ts) := lrun LInit s in
-    match st with
-    | LErr => None
-    | _ => match close st with Some t => Some (ts ++ t) | None => None end
-    end.
+  (* lexing [s] to the end, starting in state [st] *)
+  Definition lex_from (st : lstate) (s : string) : option (list token) :=
+    let (st', ts) := lrun st s in
+    match close st' with Some t => Some (ts ++ t) | None => None end.
+
+  Definition pg_lex (s : string) : option (list token) := lex_from LInit s.
 End Lex.
